@@ -123,7 +123,7 @@ fn judge_scalars(ctx: &Ctx, name: &str, v: &RVars, st: &mut Stats) {
 
 fn text_pool() -> Vec<String> {
     ["", "a", "main", "feature/x", "Feat/0042_x", "é", "€€€€", "日本語テキスト", "a€b", "0", "007", "1e5", "true", "none", "NULL", "nil", " padded ", "x y", "release/1.2.3-rc.1+b", "-", "..", "UPPER", "MiXeD-0010", "٣٣", "ſ", "\u{212A}", "İ",
-     "0123456789abcdef", "a-very-long-branch-name-exceeding-twenty-one-chars", "€", "ab€", "abc€", "🙂", "e\u{301}x", "tab\tin", "q\"uote", "back\\slash", "{{ x }}", "%Y", "0000"]
+     "0123456789abcdef", "a-very-long-branch-name-exceeding-twenty-one-chars", "€", "ab€", "abc€", "🙂", "e\u{301}x", "tab\tin", "q\"uote", "back\\slash", "{{ x }}", "%Y", "0000", "0099999999999999999999", "x.00018446744073709551616-y", "00000000000000000000000000000000000001", "$_$1"]
         .iter().map(|s| s.to_string()).collect()
 }
 
